@@ -30,8 +30,8 @@ def rec(e, fn, operands, k, render=None):
     try:
         r = fn()
         e['obs'] = render(r) if render else penc(r, k)
-        if not render and any(r is o for o in operands) is False and r.ival:
-            r.ival[0] = (r.ival[0] + 1)                      # the result must not share its list with an operand
+        if not render and r.ival and not e.get('ip'):
+            r.ival[0] = (r.ival[0] + 1)                      # the result must not share its list with an operand - nor BE an operand (a later assignment to one would rewrite the other)
     except Exception as ex:
         e['raised'] = type(ex).__name__
     e['others_unchanged'] = before == [snap(o) for o in operands]
